@@ -354,8 +354,16 @@ def sql_structural(text):
 #  the layout the query compiler assumes (monitor side; uses the REAL pgsql.types functions)
 # =====================================================================================
 
+_uo_cache = [None, None]
+
+
 def user_objects(schema, type):
-    return [o for o in schema.get_objects(exclude_stdlib=True, type=type)]
+    """non-std objects of the given class (one scan of the schema per schema value)"""
+    if _uo_cache[0] is not schema:
+        _uo_cache[0] = schema
+        _uo_cache[1] = [o for o in schema.get_objects(exclude_stdlib=True)
+                        if isinstance(o, (s_objtypes.ObjectType, s_pointers.Pointer))]
+    return [o for o in _uo_cache[1] if isinstance(o, type)]
 
 
 def expected_layout(schema):
